@@ -452,12 +452,15 @@ class Parser(object):
             if kw == 'fn' or (kw in ('const', 'unsafe', 'pub') and self._fn_ahead()):
                 return ('fn', ln, self.parse_fn_item())
             if kw == 'use':
+                texts = []
+                self.i += 1
                 while not self.at_p(';'):
                     if self.at_end():
                         self.err('unterminated use')
+                    texts.append(self.peek()[1])
                     self.i += 1
                 self.i += 1
-                return ('use', ln)
+                return ('use', ln, texts)
             if kw in ('struct', 'impl'):
                 # nested item declaration: skipped here (see rslex.nested_items)
                 depth = 0
